@@ -5,6 +5,9 @@
 # registered quick check (and, if that misses, a capped thorough check) against it by applying
 # the patch to /repo and reverting straight afterwards.  Writes /verif/seeded/<name>/.
 set -u
+# the scratch worktree is created on demand (and should be removed again when a batch is done:
+# git -C /repo worktree remove --force /tmp/wt-confirm)
+[ -d /tmp/wt-confirm ] || git -C /repo worktree add --detach /tmp/wt-confirm HEAD >/dev/null 2>&1
 src="$1"; id="$2"; name="$3"
 WT=/tmp/wt-confirm
 out="/verif/seeded/$name"; mkdir -p "$out"
